@@ -685,9 +685,22 @@ func (g *Gen) run() {
 	// lets + requires
 	env := g.entryEnv()
 	if env.pkg != nil {
-		for _, c := range g.eng.cs.PkgInv[env.pkg.Pkg.Path()] {
-			g.assumeRaw(g.specBool(env, c.E))
-			g.assumedUsed["package invariant (established by init, preserved because nothing writes the variable: C13 sweep): "+c.Text] = true
+		// invariants of package-level state: own package always; other repo packages when this unit works in the
+		// field view and its package (transitively) imports them
+		for pp, invs := range g.eng.cs.PkgInv {
+			own := pp == env.pkg.Pkg.Path()
+			if !own && !(g.view.Field && g.eng.imports(env.pkg, pp)) {
+				continue
+			}
+			sub := *env
+			sub.pkg = g.eng.prog.ImportedPackage(pp)
+			if sub.pkg == nil {
+				continue
+			}
+			for _, c := range invs {
+				g.assumeRaw(g.specBool(&sub, c.E))
+				g.assumedUsed["package invariant (established by init, preserved because nothing writes the variable: C13 sweep): "+c.Text] = true
+			}
 		}
 	}
 	for _, l := range g.ct.Lets {
